@@ -75,6 +75,10 @@ def gen_history(streams, tier, profile):
         if k == "eval":
             ents = gen.entries(cur)
             op = {"op": "eval", "entry": hrng.choice(ents), "style": hrng.choice(styles)}
+            if profile.get("p_driver_keep", 0.0) and hrng.random() < profile["p_driver_keep"]:
+                kes = gen.keep_entries(cur)
+                if kes:
+                    op = {"op": "eval", "entry": hrng.choice(kes), "style": "keep"}
             pr = proc()
             if pr:
                 op["proc"] = pr
